@@ -266,3 +266,28 @@ def walk(node):
         for c in node['c']:
             for x in walk(c):
                 yield x
+
+
+def uproot(rng, spec, p=0.25, only_tokens=False):
+    """Detach random nodes (tokens, or small constituents) and hang them
+    directly under the root -- the NeGra/TIGER situation root_attach is for.
+    Keeps the tree well formed (never empties a constituent)."""
+    root = spec['root']
+
+    def go(node, is_root):
+        if 'c' not in node:
+            return
+        for c in list(node['c']):
+            go(c, False)
+        if is_root:
+            return
+        for c in list(node['c']):
+            if len(node['c']) <= 1:
+                break
+            if only_tokens and 'c' in c:
+                continue
+            if rng.random() < (p if 'c' not in c else p / 3):
+                node['c'].remove(c)
+                root['c'].append(c)
+    go(root, True)
+    return spec
